@@ -22,7 +22,7 @@ for f in $FILES; do
   echo "\"/repo/$f\": \"$T/src/$f\"" >> "$T/ov.json"
 done
 echo '}}' >> "$T/ov.json"
-if ! (cd "$T/src" && patch -p1 -s < "$PATCH"); then echo "MUTANT: patch does not apply"; exit 3; fi
+if ! (cd "$T/src" && patch -p1 -s -F3 < "$PATCH"); then echo "MUTANT: patch does not apply"; exit 3; fi
 if ! go build -overlay "$T/ov.json" -o "$T/verif" ./cmd/verif 2> "$T/build.log"; then echo "MUTANT: does not build"; tail -5 "$T/build.log"; exit 3; fi
 if [ "$ID" = C20 ]; then
   # scheduler exploration on (mutant + vsync overlay), then the free-running -race pass on the mutant
